@@ -88,6 +88,8 @@ def rule_realloc_lands(ctx, rule="C13-lands"):
                     d = " | ".join(describe(b, ("call", x[0]) if x[1] == "term" else b.origin_rvalue(x[2])) for x in b.defs.get(e[1], []))
                 if ("HeapBuffer::with_capacity(%sas_usize(%s))" % (CAP, newcap)) in d or ("HeapBuffer::allocate_ptr(%s)" % newcap) in d:
                     rec.append(bb)
+                elif "HeapBuffer::with_exact_capacity(" in d and d.rstrip(")").endswith(", %sas_usize(%s" % (CAP, newcap.rstrip(")"))):
+                    rec.append(bb)      # (CAPROOT: with_exact_capacity(text, n) allocates exactly n)
     # a header written inside a private helper the anchor calls (write_header(ptr, capacity))
     for bb, t in b.calls():
         k = t.get("local_key")
